@@ -129,6 +129,7 @@ func exec1(rec any) *core.Outcome {
 	}
 	out.ProbeN("lazy_load_fired", res.C.LazyFired)
 	out.ProbeN("on_demand_declarations", res.C.OnDemand)
+	out.ProbeN("overload_family_calls", res.C.Overloaded)
 	// ---- the oracle: parse and type-check what was written
 	fset := token.NewFileSet()
 	var files []*ast.File
